@@ -222,14 +222,16 @@ open J1939 J1939.Gen J1939.Dll22
     min(own maximum, RTS limit, total segments) — never more than any of the three -/
 theorem c09_22_first_cts (cfg : Cfg) (s : St) (now : Nat) (mid : MessageId) (dest : Nat) (data : List Nat)
     (hl : 12 ≤ data.length) (hc : Tp22.cm_control data = Const.CM22.RTS)
-    (hfree : s.rcv.contains (Tp22.buffer_hash (Tp22.cm_session data) mid.source_address dest) = false) :
+    (hfree : s.rcv.contains (Tp22.buffer_hash (Tp22.cm_session data) mid.source_address dest) = false)
+    (hsrc : mid.source_address ≠ Const.Addr.GLOBAL) :
     let g := min cfg.maxCmdt (min (Tp22.cm_byte7 data) (Tp22.cm_segment data))
     (processCm cfg s now mid dest data).outs =
       [.tx (Tp22.cts dest mid.source_address (Tp22.cm_session data) g 1 (Tp22.cm_pgn data)), .wake] ∧
     g ≤ cfg.maxCmdt ∧ g ≤ Tp22.cm_byte7 data ∧ g ≤ Tp22.cm_segment data := by
   have hl' : ¬ data.length < 12 := by omega
+  have hsrc' : (mid.source_address == Const.Addr.GLOBAL) = false := by simpa using hsrc
   unfold processCm
-  simp only [hl', if_false, hc, beq_self_eq_true, if_true, hfree, Bool.false_eq_true]
+  simp only [hl', if_false, hsrc', hc, beq_self_eq_true, if_true, hfree, Bool.false_eq_true]
   refine ⟨trivial, Nat.min_le_left _ _, ?_, ?_⟩
   · exact Nat.le_trans (Nat.min_le_right _ _) (Nat.min_le_left _ _)
   · exact Nat.le_trans (Nat.min_le_right _ _) (Nat.min_le_right _ _)
@@ -237,13 +239,16 @@ theorem c09_22_first_cts (cfg : Cfg) (s : St) (now : Nat) (mid : MessageId) (des
 /-- J1939-22: a busy (session, pair) is refused with an abort (reason BUSY); the running session is untouched -/
 theorem c09_22_rts_busy (cfg : Cfg) (s : St) (now : Nat) (mid : MessageId) (dest : Nat) (data : List Nat)
     (hl : 12 ≤ data.length) (hc : Tp22.cm_control data = Const.CM22.RTS)
-    (hbusy : s.rcv.contains (Tp22.buffer_hash (Tp22.cm_session data) mid.source_address dest) = true) :
+    (hbusy : s.rcv.contains (Tp22.buffer_hash (Tp22.cm_session data) mid.source_address dest) = true)
+    (hsrc : mid.source_address ≠ Const.Addr.GLOBAL) :
     (processCm cfg s now mid dest data).st = s ∧
     (processCm cfg s now mid dest data).outs =
       [.tx (Tp22.abort dest mid.source_address (Tp22.cm_session data) Const.Abort22.BUSY (Tp22.cm_pgn data))] := by
   have hl' : ¬ data.length < 12 := by omega
+  have hsrc' : (mid.source_address == Const.Addr.GLOBAL) = false := by simpa using hsrc
+  have hsrc2 : ¬ mid.source_address = 255 := hsrc
   unfold processCm
-  simp [hl', hc, hbusy]
+  simp [hl', hsrc2, hc, hbusy]
 
 /-- J1939-22, LATER GRANTS: an in-order segment that does not complete the message and reaches the window border is
     answered by ONE CTS granting min(negotiated window, segments after the border) for segment border+1, and the border
@@ -273,6 +278,15 @@ theorem c09_22_dt_grant (s : St) (now : Nat) (mid : MessageId) (dest : Nat) (f :
     have : ¬ Tp22.dt_segment f ≥ border := by omega
     simp only [this, if_false]
 
+/-- J1939-22 (repair of D29): an FD.TP.CM frame whose source is the global address — no station may send from it — is
+    ignored altogether: same state, nothing sent; in particular it can never be taken for a peer's answer to one of the
+    stack's own broadcast sessions -/
+theorem c09_22_global_source_ignored (cfg : Cfg) (s : St) (now : Nat) (mid : MessageId) (dest : Nat) (data : List Nat)
+    (hsrc : mid.source_address = Const.Addr.GLOBAL) :
+    processCm cfg s now mid dest data = { st := s } := by
+  unfold processCm
+  simp [hsrc]
+
 /-! ### J1939-22 originator -/
 
 /-- J1939-22, A CTS OPENS A WINDOW OF AT MOST THE GRANTED NUMBER: the originator will send from the requested segment
@@ -280,7 +294,8 @@ theorem c09_22_dt_grant (s : St) (now : Nat) (mid : MessageId) (dest : Nat) (f :
     message; a CTS granting 0 (hold) opens nothing and only re-arms the timer -/
 theorem c09_22_cts_window (cfg : Cfg) (s : St) (now : Nat) (mid : MessageId) (dest : Nat) (data : List Nat) (b : Snd)
     (hl : 12 ≤ data.length) (hc : Tp22.cm_control data = Const.CM22.CTS)
-    (hg : s.snd.get? (Tp22.buffer_hash (Tp22.cm_session data) dest mid.source_address) = some b) :
+    (hg : s.snd.get? (Tp22.buffer_hash (Tp22.cm_session data) dest mid.source_address) = some b)
+    (hsrc : mid.source_address ≠ Const.Addr.GLOBAL) :
     (Tp22.cm_byte7 data = 0 →
       (processCm cfg s now mid dest data).st.snd.get? (Tp22.buffer_hash (Tp22.cm_session data) dest mid.source_address)
         = some { b with deadline := now + Const.T22.Th }) ∧
@@ -290,8 +305,9 @@ theorem c09_22_cts_window (cfg : Cfg) (s : St) (now : Nat) (mid : MessageId) (de
         (w - b'.next + 1 ≤ (b.numSegments : Int) - b'.next ∨ (b.numSegments : Int) - b'.next < 0)) := by
   have hl' : ¬ data.length < 12 := by omega
   have c1 : (Const.CM22.CTS == Const.CM22.RTS) = false := by decide
+  have hsrc' : (mid.source_address == Const.Addr.GLOBAL) = false := by simpa using hsrc
   unfold processCm
-  simp only [hl', if_false, hc, c1, Bool.false_eq_true, beq_self_eq_true, if_true, hg]
+  simp only [hl', if_false, hsrc', hc, c1, Bool.false_eq_true, beq_self_eq_true, if_true, hg]
   constructor
   · intro h0
     simp [h0, PyDict.get?_set_self]
